@@ -130,7 +130,7 @@ func checkValue(vc *valCase, c rw.Ctx) (fs []finding) {
 	}
 	m := rw.ByCmd(vc.cmd)
 	def := m.Defined(c.Pver)
-	refB, _ := rw.Encode(m.Fields, vc.v, c)
+	refB := rw.EncodeBytes(m.Fields, vc.v, c)
 	w := toWire(vc.cmd, vc.v)
 	if w.Command() != vc.cmd {
 		bad("command", "Command() = %q want %q", w.Command(), vc.cmd)
@@ -234,7 +234,7 @@ func checkValue(vc *valCase, c rw.Ctx) (fs []finding) {
 		}
 	case "block":
 		db := d.(*wire.MsgBlock)
-		hb, _ := rw.Encode(rw.HeaderFields, vc.v.R("header"), c)
+		hb := rw.EncodeBytes(rw.HeaderFields, vc.v.R("header"), c)
 		if h, want := db.BlockHash(), rw.DSha256(hb); h != want {
 			bad("blockhash-roundtrip", "BlockHash after round trip %x want %x", h[:], want[:])
 		}
@@ -255,8 +255,8 @@ func checkTxExtras(t Rec) (fs []finding) {
 		}
 	}()
 	w := txToWire(t)
-	wb, _ := rw.EncodeTx(t, true)
-	bb, _ := rw.EncodeTx(t, false)
+	wb := rw.EncodeTxBytes(t, true)
+	bb := rw.EncodeTxBytes(t, false)
 	txid, wtxid := rw.TxID(t), rw.WTxID(t)
 	hasWit := rw.TxHasWitness(t)
 	if got := w.SerializeSize(); got != len(wb) {
@@ -380,9 +380,9 @@ func checkBlockExtras(b Rec) (fs []finding) {
 		}
 	}()
 	w := blockToWire(b)
-	wb, _ := rw.Encode(rw.BlockFields, b, rw.Ctx{Witness: true})
-	bb, _ := rw.Encode(rw.BlockFields, b, rw.Ctx{})
-	hb, _ := rw.Encode(rw.HeaderFields, b.R("header"), rw.Ctx{})
+	wb := rw.EncodeBytes(rw.BlockFields, b, rw.Ctx{Witness: true})
+	bb := rw.EncodeBytes(rw.BlockFields, b, rw.Ctx{})
+	hb := rw.EncodeBytes(rw.HeaderFields, b.R("header"), rw.Ctx{})
 	bh := rw.DSha256(hb)
 	txns := b.L("txns")
 	if got := w.SerializeSize(); got != len(wb) {
@@ -435,7 +435,7 @@ func checkBlockExtras(b Rec) (fs []finding) {
 	var locs []loc
 	off := 80 + len(rw.CompactSize(uint64(len(txns))))
 	for _, t := range txns {
-		e, _ := rw.EncodeTx(t, true)
+		e := rw.EncodeTxBytes(t, true)
 		locs = append(locs, loc{off, len(e)})
 		off += len(e)
 	}
@@ -515,7 +515,7 @@ func checkFraming(vc *valCase, c rw.Ctx, net wire.BitcoinNet) (fs []finding) {
 	if m.Defined(c.Pver) != rw.Yes || !mustAt(vc, c) {
 		return
 	}
-	payload, _ := rw.Encode(m.Fields, vc.v, c)
+	payload := rw.EncodeBytes(m.Fields, vc.v, c)
 	if len(payload) > 4000000 { // MAX_PROTOCOL_MESSAGE_LENGTH
 		return
 	}
@@ -535,6 +535,10 @@ func checkFraming(vc *valCase, c rw.Ctx, net wire.BitcoinNet) (fs []finding) {
 		return
 	}
 	n2, msg, pl, err := wire.ReadMessageWithEncodingN(bytes.NewReader(frame), c.Pver, net, wireEnc(c))
+	if err == wire.ErrUnknownMessage {
+		bad("read-unknown-command", "ReadMessageWithEncodingN does not know the command of the frame WriteMessageWithEncodingN produced for %q: %v", vc.cmd, err)
+		return
+	}
 	if err != nil {
 		bad("read-error", "ReadMessageWithEncodingN rejected the frame WriteMessageWithEncodingN produced for %q: %v", vc.cmd, err)
 		return
@@ -569,7 +573,7 @@ func checkAddrV2Spec(id uint64, alen int, c rw.Ctx) (fs []finding, desc string) 
 	x := addrV2Rec(3, 0x409, id, pattern(alen, 0x31, 1), 18333)
 	desc = fmt.Sprintf("id=%d/len=%d", id, alen)
 	m := rw.ByCmd("addrv2")
-	in, _ := rw.Encode(m.Fields, Rec{"addr_list": []Rec{a, x, b}}, c)
+	in := rw.EncodeBytes(m.Fields, Rec{"addr_list": []Rec{a, x, b}}, c)
 	d := &wire.MsgAddrV2{}
 	n, err, pn := implDecode(d, in, c)
 	if pn != "" {
